@@ -197,7 +197,7 @@ pub struct Meta {
 pub const COMMON_ASSUMPTIONS: &[&str] = &[
     "seeded search, not proof: a clean batch is evidence bounded by the reported counts",
     "real code: Server, InMemoryStorage, SqliteStorage, rusqlite, bundled SQLite 3.46 (pager, WAL, busy handler, unix VFS on tmpfs), the four actix handlers, routing, extractors, default-headers middleware",
-    "stubbed: sockets and HTTP/1.1 codec (requests enter at actix's service layer), wall clock and id source (verif feature hooks), thread scheduling (parked real threads, simulator-chosen order), process death and power loss (image capture + reopen), separate server processes (several instances in one process), main() of the binary (never run)",
+    "stubbed: sockets and HTTP/1.1 codec (requests enter at actix's service layer), wall clock and id source (verif feature hooks), thread scheduling (parked real threads, simulator-chosen order), process death and power loss (image capture + reopen), separate server processes (several instances in one process; in the scheduled SQLite batches of C03 one thread's requests are served by a real second process, one request per atomic scheduler step), main() of the binary (never run)",
     "trusted: the reference model and oracles, the shim VFS's pass-through correctness, the simulator's unique id source, SQLite and actix below/above the seams",
 ];
 
